@@ -9,7 +9,7 @@ OUT=/tmp/sc_T18_out
 D=$V/docs/tie_tests/T18
 props_of() {
   case $1 in
-    m01*|m06*|m09*) echo "C19";;
+    m01*|m06*|m09*|m10*) echo "C19";;
     m02*|m03*|m05*|m08*) echo "C06";;
     m04*) echo "C05 C19";;
     m07*) echo "C05";;
